@@ -459,6 +459,16 @@ impl<R: Repeat> BaseMoveChain<R> {
     }
 }
 
+#[cfg(feature = "verif")]
+impl<R: Repeat> BaseMoveChain<R> {
+    /// Verification hook: returns the repetition table of the chain
+    #[doc(hidden)]
+    #[inline]
+    pub fn verif_repeat(&self) -> &R {
+        &self.repeat
+    }
+}
+
 impl<R: Repeat> Default for BaseMoveChain<R> {
     #[inline]
     fn default() -> Self {
